@@ -23,6 +23,7 @@ func main() {
 	worker.Register(c12.Scenario{})
 	worker.Register(c12.Scenario{Race: true})
 	worker.Register(c13.Scenario{})
+	worker.Register(c13.ServerScenario{})
 	worker.Register(c14.Scenario{})
 	worker.Main()
 }
